@@ -9,6 +9,7 @@ from ..engine import finite, flow
 from ..engine.mutate import Mutant, Variant, in_function, replace_once
 from ..engine.runner import Rule
 from ..engine.source import AnalysisError
+from . import shared
 from .common import callee_name, calls_in
 
 EXPLANATION = (
@@ -110,15 +111,22 @@ def rule_optional_filter(ctx):
     ctx.check(f"SET state = {SS.PENDING.value}" in us, "finalize.UPDATE_OPTIONAL_STEPS", "reverted steps become PENDING", "reverted steps get another state", "PENDING")
 
 
+def rule_output_memory(ctx):
+    """R-C07-6: a file stays known as a former output (state BUILT/OUTDATED, hash kept) until cleanup decides about it."""
+    shared.check_initialize_row_carry_over(ctx, "a former output whose row is recycled as UNDECLARED/PLANNED loses its output state and hash: once nothing uses it any more it is no longer recognised as an orphaned output and stays on disk")
+
+
 RULES = [
     Rule("R-C07-1", "cleanup sequence on the clean path", rule_sequence, min_instances=3),
     Rule("R-C07-2", "deletion loop shape and order", rule_delete_loop, min_instances=4),
     Rule("R-C07-3", "static-tree files pruned before the base deletion", rule_tree_files_first, min_instances=2),
     Rule("R-C07-4", "directories are queued and pruned", rule_directories, min_instances=5),
     Rule("R-C07-5", "optional revert filter", rule_optional_filter, min_instances=3),
+    Rule("R-C07-6", "former outputs stay known as outputs until cleanup", rule_output_memory, min_instances=16),
 ]
 
 MUTANTS = [
+    Mutant("undeclared-forgets-output", "file.py", in_function("File.initialize_row", replace_once("if state in (FileState.UNDECLARED, FileState.PLANNED):", "if state == FileState.PLANNED:")), ("R-C07-6",)),
     Mutant("skip-revert", "builder.py", in_function("Builder.finalize", replace_once("            await revert_optional_steps(self.workflow, self.reporter)\n", "")), ("R-C07-1",)),
     Mutant("remove-before-delete", "builder.py", in_function("Builder.finalize", lambda s: s.replace("            async with self.db:\n                self.workflow.delete_detached()\n            await remove_deletable_files(self.workflow, self.reporter)\n", "            await remove_deletable_files(self.workflow, self.reporter)\n            async with self.db:\n                self.workflow.delete_detached()\n") if "self.workflow.delete_detached()" in s else None), ("R-C07-1",)),
     Mutant("single-pass", "trellis.py", in_function("Trellis.delete_detached", replace_once("                cleaned_some = True\n", "                cleaned_some = False\n")), ("R-C07-2",)),
@@ -131,5 +139,6 @@ MUTANTS = [
 ]
 
 VARIANTS = [
-    Variant("loop-flag-rename", "trellis.py", in_function("Trellis.delete_detached", lambda s: s)),
+    Variant("loop-flag-rename", "trellis.py", in_function("Trellis.delete_detached", lambda s: s.replace("cleaned_some", "progress") if "cleaned_some" in s else None)),
+    Variant("cleanup-logs-first", "builder.py", in_function("Builder.finalize", replace_once("            await revert_optional_steps(self.workflow, self.reporter)\n", "            logger.debug(\"cleanup starts\")\n            await revert_optional_steps(self.workflow, self.reporter)\n"))),
 ]
